@@ -81,6 +81,7 @@ def plan(tier):
     # euclidean-remainder (num-bigint division is inline assembly), num_floor_remainder_i_big (real num-bigint division: solver out of memory),
     # num_expt_* (expt with concrete exponent -2/-3 and |base| <= 12: 900 s timeout),
     # 64x64-bit product equality, gcd/lcm, number<->string,
+    # num_cmp_float_big_total (a double against a big integer through bigdecimal: 25 min, 8 GB, no answer; E3s decides the panic-freedom half),
     # num_round_rational (unwinding bound 6 too small for Ratio::cmp's continued-fraction loop), num_add_rational_i (Ratio::checked_add with its
     # gcd loops on a symbolic i32: solver out of memory) -- both kept in harness/num.rs, in no tier
     return q + (t if tier == "thorough" else [])
